@@ -1,0 +1,97 @@
+//go:build verif
+
+package nsqd
+
+import (
+	"bytes"
+
+	"github.com/nsqio/nsq/internal/protocol"
+)
+
+// VerifEncodeMessage builds a Message with the given serialised fields and returns what
+// Message.WriteTo writes, together with the byte count WriteTo reports.
+func VerifEncodeMessage(ts int64, attempts uint16, id []byte, body []byte) ([]byte, int64, error) {
+	var mid MessageID
+	copy(mid[:], id)
+	m := &Message{ID: mid, Body: body, Timestamp: ts, Attempts: attempts}
+	var buf bytes.Buffer
+	n, err := m.WriteTo(&buf)
+	return buf.Bytes(), n, err
+}
+
+// VerifDecodeMessage runs decodeMessage; ok=false when it returns an error.  A panic
+// (slice out of range) is reported as panicked=true.
+func VerifDecodeMessage(b []byte) (ok bool, panicked bool, ts int64, attempts uint16, id []byte, body []byte) {
+	defer func() {
+		if r := recover(); r != nil {
+			ok, panicked = false, true
+		}
+	}()
+	m, err := decodeMessage(b)
+	if err != nil {
+		return false, false, 0, 0, nil, nil
+	}
+	return true, false, m.Timestamp, m.Attempts, append([]byte(nil), m.ID[:]...), m.Body
+}
+
+// VerifBackendRoundTrip is writeMessageToBackend followed by decodeMessage of the record
+// handed to the backend (the pooled buffer's content is copied at Put time, as a real
+// BackendQueue does).
+type verifCaptureBackend struct{ rec []byte }
+
+func (c *verifCaptureBackend) Put(b []byte) error {
+	c.rec = append([]byte(nil), b...)
+	return nil
+}
+func (c *verifCaptureBackend) ReadChan() <-chan []byte { return nil }
+func (c *verifCaptureBackend) Close() error            { return nil }
+func (c *verifCaptureBackend) Delete() error           { return nil }
+func (c *verifCaptureBackend) Depth() int64            { return 0 }
+func (c *verifCaptureBackend) Empty() error            { return nil }
+
+func VerifBackendRecord(ts int64, attempts uint16, id []byte, body []byte) ([]byte, error) {
+	var mid MessageID
+	copy(mid[:], id)
+	m := &Message{ID: mid, Body: body, Timestamp: ts, Attempts: attempts}
+	c := &verifCaptureBackend{}
+	err := writeMessageToBackend(m, c)
+	return c.rec, err
+}
+
+// VerifFrame returns what protocol.SendFramedResponse writes.
+func VerifFrame(frameType int32, data []byte) ([]byte, int, error) {
+	var buf bytes.Buffer
+	n, err := protocol.SendFramedResponse(&buf, frameType, data)
+	return buf.Bytes(), n, err
+}
+
+// VerifReadMPUB runs readMPUB on the given input (ids are drawn from the given topic, as in
+// the handlers).  It returns the bodies of the messages, or the error code, and the number
+// of input bytes left unread.
+func VerifReadMPUB(topic *Topic, input []byte, maxMessageSize, maxBodySize int64) (bodies [][]byte, ids [][]byte, code string, unread int) {
+	r := bytes.NewReader(input)
+	tmp := make([]byte, 4)
+	msgs, err := readMPUB(r, tmp, topic, maxMessageSize, maxBodySize)
+	if err != nil {
+		if fe, ok := err.(*protocol.FatalClientErr); ok {
+			return nil, nil, fe.Code, r.Len()
+		}
+		return nil, nil, "E_OTHER", r.Len()
+	}
+	for _, m := range msgs {
+		bodies = append(bodies, m.Body)
+		ids = append(ids, append([]byte(nil), m.ID[:]...))
+	}
+	return bodies, ids, "", r.Len()
+}
+
+// VerifChannelCopies reproduces the per-channel fan-out of Topic.messagePump on one
+// message: it cannot be called in isolation there (it is the body of the pump's loop), so
+// the live correspondence (several channels on one topic) is what exercises the real code;
+// this helper only exposes NewMessage for the harness.
+func VerifNewMessage(id []byte, body []byte) (ts int64, attempts uint16) {
+	var mid MessageID
+	copy(mid[:], id)
+	m := NewMessage(mid, body)
+	return m.Timestamp, m.Attempts
+}
